@@ -29,3 +29,6 @@ def step (_ : Unit) (t : List String) : Unit × String :=
   | _ => ((), "bad-op")
 
 end Driver.C17
+
+def main : IO Unit := do
+  Driver.loop (← IO.getStdin) (← IO.getStdout) Driver.C17.step ()
